@@ -289,14 +289,51 @@ def _function_hashes(path: str) -> dict[str, str]:
     return out
 
 
+def _inert_lines(path: str) -> set[int]:
+    """Lines of statements that cannot change what the library does: `pass`, bare constants
+    (docstrings, `...`), calls of a logger / `warnings.warn` / `print` whose arguments contain no
+    call, await, walrus or comprehension, and `global` / `nonlocal` declarations.  An unexecuted
+    statement of this kind (a debug message inside a guarded block, say) is not code the
+    correspondence run has to reach."""
+    import ast
+    import re
+
+    with open(path, encoding="utf-8") as f:
+        tree = ast.parse(f.read())
+    logger = re.compile(r"(?i)^_*(log|logger|logging|warnings)$|logger$")
+    out: set[int] = set()
+
+    def plain(e) -> bool:
+        return not any(isinstance(x, (ast.Call, ast.Await, ast.NamedExpr, ast.ListComp, ast.SetComp, ast.DictComp,
+                                      ast.GeneratorExp, ast.Yield, ast.YieldFrom, ast.Lambda)) for x in ast.walk(e))
+
+    for node in ast.walk(tree):
+        if isinstance(node, (ast.Pass, ast.Global, ast.Nonlocal)):
+            out.add(node.lineno)
+        elif isinstance(node, ast.Expr):
+            v = node.value
+            if isinstance(v, ast.Constant):
+                out.add(node.lineno)
+            elif isinstance(v, ast.Call):
+                fn = v.func
+                base = fn.value if isinstance(fn, ast.Attribute) else fn
+                name = base.id if isinstance(base, ast.Name) else ""
+                level = isinstance(fn, ast.Attribute) and fn.attr in (
+                    "debug", "info", "warning", "warn", "error", "exception", "critical", "log")
+                if ((logger.search(name) and level) or (isinstance(fn, ast.Name) and fn.id == "print")) \
+                        and all(plain(a) for a in v.args) and all(plain(k.value) for k in v.keywords):
+                    out.add(node.lineno)
+    return out
+
+
 def _statement_keys(path: str, statements, missing) -> list[tuple[str, str, str]]:
     """Unexecuted statements inside functions of which this run executed at least one statement
     (code the run reaches but does not cover); functions the run never enters are other
     properties' business."""
     src, owner = _owners(path)
     rel = os.path.relpath(path, "/repo")
-    miss = set(missing)
-    entered = {owner.get(ln, "") for ln in statements if ln not in miss and owner.get(ln, "")}
+    miss = set(missing) - _inert_lines(path)
+    entered = {owner.get(ln, "") for ln in statements if ln not in set(missing) and owner.get(ln, "")}
     return sorted({(rel, owner.get(ln, ""), src[ln - 1].strip()) for ln in miss if owner.get(ln, "") in entered})
 
 
@@ -331,6 +368,13 @@ class Exercise:
         return {"measured": True, "statements": statements, "missing": missing}
 
 
+def _anon(text: str) -> str:
+    import keyword
+    import re
+
+    return re.sub(r"(?<![\w.])[A-Za-z_]\w*", lambda m: m.group(0) if keyword.iskeyword(m.group(0)) else "_", text)
+
+
 def exercise_gaps(pid: str, tier: str, ex: dict) -> list[str]:
     """Statements of the anchor files not executed by this run and not in the baseline."""
     if not ex.get("measured"):
@@ -345,7 +389,10 @@ def exercise_gaps(pid: str, tier: str, ex: dict) -> list[str]:
         return []
     with open(path, encoding="utf-8") as f:
         base = json.load(f)
-    allowed = {tuple(k) for k in base.get(pid, [])}
+    # a baseline statement is recognised wherever it now lives in the file and whatever its local
+    # names are (helper extraction, renames): compared by file and by text with identifiers that are
+    # not attribute names replaced by a placeholder
+    allowed = {(k[0], _anon(k[2])) for k in base.get(pid, [])}
     if pid not in base or "__functions__" not in base:
         return []
     # only code that differs from the pinned tree is in question: a function whose text is the one
@@ -360,7 +407,7 @@ def exercise_gaps(pid: str, tier: str, ex: dict) -> list[str]:
             if known.get(q) != h:
                 changed.add((rel, q))
     return [f"{k[0]}: {k[1] or '<module>'}: {k[2]}" for k in ex["missing"]
-            if tuple(k) not in allowed and (k[0], k[1]) in changed]
+            if (k[0], _anon(k[2])) not in allowed and (k[0], k[1]) in changed]
 
 
 def main() -> int:
